@@ -572,7 +572,11 @@ func parsePositionRule(c *Ctx, r *Result, rule string) {
 			}
 		}
 	}
-	r.Check(len(fields) > 0 && n >= 40, rule, "file-writes#not-addressed-by-parse-positions", "", fmt.Sprintf("%d WriteAt/WriteAtAddress call sites examined against %d parse-position fields; none is addressed by one", n, len(fields)))
+	if len(fields) == 0 || n < 20 {
+		r.Shortfall(c, rule, fmt.Sprintf("%s: %d parse-position fields, %d WriteAt/WriteAtAddress call sites (expected >= 1 and >= 20)", rule, len(fields), n))
+		return
+	}
+	r.Hold(rule, "file-writes#not-addressed-by-parse-positions", "", fmt.Sprintf("%d WriteAt/WriteAtAddress call sites examined against %d parse-position fields; none is addressed by one", n, len(fields)))
 }
 
 func init() {
